@@ -5,12 +5,17 @@
    Refuted for remove-node (C11_remove_node_refuted: the plugin's removal failing after the store record
    is gone has an empty rollback) and for replace (C11_replace_refuted).  Proved for EVERY world and EVERY
    fault position: realloc, set-node (after the repair; whole operation), add-node (fresh name, existing pod),
-   the locked per-workload transactions of remove (records equal up to order) and dissociate.  The transaction combinator used by every script is the C17 model
-   (C11_txn_is_C17). *)
+   the locked per-workload transactions of remove (records equal up to order) and dissociate; and for replace
+   (C11_replace_outcomes, C11_replace_failed, every world, every fault position): the replacement of one
+   workload ends in exactly one of three ways: success; a failure before the new workload exists, which leaves
+   records, usage and nodes as they were and the old container untouched or running again; a failure after the
+   new workload was deployed (only the removal of the old workload can fail there: the known finding), which
+   leaves old AND new recorded.  In every failed case the old workload is still recorded and its container is
+   untouched or running.  The transaction combinator used by every script is the C17 model (C11_txn_is_C17). *)
 From Coq Require Import Bool Arith ZArith.
 From Coq Require Import List Permutation.
 From Verif Require Import Base.Effects Utils.Txn Calcium.World Calcium.Ops Calcium.Run Calcium.EffectsProofs
-  Calcium.OpsProofs Calcium.OpsProofs2 Calcium.NodeProofs Calcium.Sweeps.
+  Calcium.OpsProofs Calcium.OpsProofs2 Calcium.NodeProofs Calcium.Sweeps Calcium.HistoryProofs.
 
 Theorem C11_realloc_atomic : forall id req w k, wf w ->
   exists w' k' r, crunk (realloc id req) w k = (w', k', r) /\
@@ -79,6 +84,27 @@ Theorem C11_remove_node_refuted :
   find_node (r_world rmnode_bad) 2 = None /\ find_plug (r_world rmnode_bad) 2 <> None.
 Proof. exact remove_node_not_atomic. Qed.
 Print Assumptions C11_remove_node_refuted.
+
+(* replace, one workload under its lock: the three outcomes (replace_post), every world, every fault position *)
+Theorem C11_replace_outcomes : forall opi index old w k c0,
+  NoDup (ids (wls w)) -> find_wl w (w_id old) = Some old -> find_cont w (w_id old) = Some c0 ->
+  find_wl w (w_id (new_of opi index old)) = None -> find_cont w (w_id (new_of opi index old)) = None ->
+  exists w' k' r, crunk (do_replace opi index old) w k = (w', k', r) /\ replace_post opi index old w w' r.
+Proof. exact do_replace_spec. Qed.
+Print Assumptions C11_replace_outcomes.
+
+(* a failed replace leaves the old workload recorded and its container untouched or running; nothing about
+   usage or nodes changes; if the new workload was not deployed the records are what they were *)
+Theorem C11_replace_failed : forall opi index old w k c0,
+  NoDup (ids (wls w)) -> find_wl w (w_id old) = Some old -> find_cont w (w_id old) = Some c0 ->
+  find_wl w (w_id (new_of opi index old)) = None -> find_cont w (w_id (new_of opi index old)) = None ->
+  exists w' k' r, crunk (do_replace opi index old) w k = (w', k', r) /\
+    (snd r <> None ->
+       In old (wls w') /\ plugs w' = plugs w /\ nodes w' = nodes w /\
+       (conts w' = conts w \/ find_cont w' (w_id old) = Some (mkCont (w_id old) CRunning))) /\
+    (snd r <> None -> fst (fst r) = None -> wls w' = wls w).
+Proof. exact replace_failed_keeps_old. Qed.
+Print Assumptions C11_replace_failed.
 
 Theorem C11_replace_refuted :
   r_err replace_bad = 0%Z /\
